@@ -33,6 +33,12 @@ CHECKS = {
         "note": "judged on documented domains only; trusts vlib.values' order; the manual's verify/flattens definitions are copied into the programs",
         "technique": "runtime monitoring: metamorphic / invariant monitor over the documented equations of the collection built-ins",
     },
+    "C15": {
+        "text": "Held on the executions observed: syntax trees rendered by an independent printer that encodes the manual's precedence table (minimal / full / random redundant parentheses; random whitespace, newlines, CRLF and comments with the odd/even backslash rule between tokens) are parsed by the real lexer+parser and must come back structurally identical: exhaustively every ordered pair of the 24 infix operators and the `as` binding in both groupings (thorough: every triple in 5 groupings), random trees over every node kind (patterns, all object-key forms, interpolation and @formats, label/def/reduce/foreach/try/if-elif, postfix ? and path suffixes under prefix minus) and generated programs; 63 documented shorthands are compared with their expansions by outputs; 86 texts outside the grammar must be rejected at load/compile time; for mutated texts that are accepted, the token sequence of the re-rendered parse must equal the token sequence of the text (nothing dropped, reordered or invented).",
+        "design_ref": "DESIGN.md §4 C15, Appendix D.3",
+        "note": "trusts the printer (jqref/ast.py) as encoding of the documented table and of the right-extension of as/def/label; faithfulness is judged on names, variables, numbers, string texts, keywords and operators (grouping tokens and sugar normalised)",
+        "technique": "runtime monitoring: print/parse round-trip monitor with an independent printer, exhaustive over operator pairs/triples",
+    },
     "C08": {
         "text": "Held on the executions observed: whole comparison matrices over pools of typed values (every number representation of equal values, representation boundaries, text/byte strings, objects in different insertion orders) computed by the real interpreter, compared with the manual's order and checked model-free for trichotomy, antisymmetry and transitivity; sort/unique/group_by/min/max/bsearch/array-minus checked against the same order; model-equal values substituted for each other in 20 lookup/dedup contexts. Bounded by the pools; no proof.",
         "design_ref": "DESIGN.md §4 C08",
